@@ -1,14 +1,104 @@
 (** C11  Fixed-capacity string equals std::string cut off at the capacity.
     Only statements; every proof is [exact <lemma of FixedStr/...>] or, for the
-    witnesses of the defects of the pinned tree, [vm_compute]. *)
+    witnesses of the defects of the pinned tree, [vm_compute].
+
+    [std_step (abs s) (abs o) x] (FsStd.v) is what operation [x] does on a
+    std::string holding the text of the object (second operand: a std::string
+    holding the text of the other object); it is [Some] exactly inside the
+    documented domain.  [abs s] is the text the object shows through
+    str()/c_str()/length(); [cut L] drops what does not fit. *)
 From Coq Require Import List NArith Bool.
 Import ListNotations.
 Require Import Celma.Common.Res Celma.FixedStr.FsBase Celma.FixedStr.FsModel
-  Celma.FixedStr.FsSafe Celma.FixedStr.FsStd Celma.FixedStr.FsRefine Celma.FixedStr.FsPinned.
+  Celma.FixedStr.FsSafe Celma.FixedStr.FsSafeAll Celma.FixedStr.FsStd Celma.FixedStr.FsRefine
+  Celma.FixedStr.FsRefine3 Celma.FixedStr.FsRefine4 Celma.FixedStr.FsPinned.
 Local Open Scope N_scope.
+
+(** Every modifying operation (all 40 modelled entry points: constructors and
+    assign, the insert / erase / push_back / pop_back / append / sprintf /
+    replace families including the iterator overloads, swap, clear), for every
+    capacity, every well-formed pair of objects and every argument inside the
+    domain: the operation succeeds and leaves the text std::string has after the
+    same operation, cut at the capacity (for swap: both objects). *)
+Theorem C11_mutators_refine :
+  forall L s o x cs' cos' rs,
+    CapOk L -> Inv L s -> Inv L o -> Bounded x -> CstrsOk x -> is_mutator x = true ->
+    std_step (abs s) (abs o) x = Some (cs', cos', rs) ->
+    exists s' o' r, step L s o x = Ok (s', o', r) /\ abs s' = cut L cs' /\ abs o' = cut L cos'.
+Proof. intros L s o x cs' cos' rs H Hs Ho HB HC Hm. exact (mut_refines L H s o x Hs Ho HB HC Hm cs' cos' rs). Qed.
+Print Assumptions C11_mutators_refine.
+
+(** Observers with a proof: the three compare implementations (9 overloads),
+    starts_with (4 overloads), substr, copy, at / front / back / length / empty /
+    str, operator== and operator!= return exactly what std::string returns on
+    the same text, and change nothing.
+    Full statement (property C11) also covers ends_with, contains, the 30
+    overloads of the find family and the traversal with the four iterator
+    classes: for those the model is tied to std::string by the correspondence
+    check only (exhaustive small scopes), hence the name. *)
+Theorem C11_observers_refine_partial :
+  forall L s o x cs' cos' rs,
+    CapOk L -> Inv L s -> Inv L o -> Bounded x -> CstrsOk x -> is_proved_obs x = true ->
+    std_step (abs s) (abs o) x = Some (cs', cos', rs) ->
+    step L s o x = Ok (s, o, rs) /\ cs' = abs s /\ cos' = abs o.
+Proof. intros L s o x cs' cos' rs H Hs Ho HB HC Hm. exact (obs_refines L H s o x Hs Ho HB HC Hm cs' cos' rs). Qed.
+Print Assumptions C11_observers_refine_partial.
 
 (** operator== and operator!= are complementary for all operands *)
 Theorem C11_eq_neq_complementary :
   forall s o, ne_op s o = (do b <- eq_op s o; Ok (negb b)).
 Proof. exact eq_ne_complementary. Qed.
 Print Assumptions C11_eq_neq_complementary.
+
+(* ------------------------------------------------------------------ *)
+(** Witnesses of the defects of the pinned tree (functions of FsPinned.v); each
+    input also fails on the real pinned code (corpus of props/C10.py). *)
+
+Definition fs10 (cs : list byte) : fs :=
+  match fs_init 10 cs with Ok s => s | _ => zero_fs 10 end.
+
+(** "ab" != "ac" and "ab" != "abc" are false although == is false too *)
+Theorem C11_operator_ne_pinned_refuted :
+  ne_op_pinned (fs10 [97;98]) (fs10 [97;99]) = Ok false /\ eq_op (fs10 [97;98]) (fs10 [97;99]) = Ok false /\
+  ne_op_pinned (fs10 [97;98]) (fs10 [97;98;99]) = Ok false /\ eq_op (fs10 [97;98]) (fs10 [97;98;99]) = Ok false.
+Proof. vm_compute. repeat split. Qed.
+Print Assumptions C11_operator_ne_pinned_refuted.
+
+(** sprintf of 260 characters into FixedString<255> gives 4 characters *)
+Theorem C11_sprintf_pinned_refuted :
+  exists s', sprintf_pinned 255 (zero_fs 255) (repeat 97 260) = Ok s' /\ len s' = 4 /\
+             nlen (cut 255 (repeat 97 260)) = 255.
+Proof. eexists. split; [vm_compute; reflexivity|]. split; vm_compute; reflexivity. Qed.
+Print Assumptions C11_sprintf_pinned_refuted.
+
+(** the example of the source comment with two replaced characters:
+    FixedString<30>("goodbyexxfarewell").replace( 7, 2, " and ") gives the wrong text *)
+Theorem C11_replace_pinned_refuted :
+  let s := match fs_init 30 [103;111;111;100;98;121;101;120;120;102;97;114;101;119;101;108;108] with
+           | Ok s => s | _ => zero_fs 30 end in
+  exists s', replace_impl_pinned 30 s 7 2 (carr [32;97;110;100;32]) 0 5 = Ok s' /\
+             abs s' <> cut 30 (std_replace (abs s) 7 2 [32;97;110;100;32]).
+Proof. eexists. split; [vm_compute; reflexivity|]. vm_compute. discriminate. Qed.
+Print Assumptions C11_replace_pinned_refuted.
+
+(** compare( 1, npos, "bc") on "abc" returns 1; compare( 3, 0, "a") on "abc" returns 1 *)
+Theorem C11_compare_pinned_refuted :
+  part_compare_pinned (fs10 [97;98;99]) 1 NPOS (carr [98;99]) 2 = Ok Gt /\
+  lex (std_substr [97;98;99] 1 NPOS) [98;99] = Eq /\
+  part_compare_pinned (fs10 [97;98;99]) 3 0 (carr [97]) 1 = Ok Gt /\
+  lex (std_substr [97;98;99] 3 0) [97] = Lt.
+Proof. vm_compute. repeat split. Qed.
+Print Assumptions C11_compare_pinned_refuted.
+
+(** Non-vacuity: an operation inside the domain on which the theorems apply. *)
+Example C11_nonvacuous :
+  CapOk 10 /\ Inv 10 (fs10 [97;98;99]) /\ Bounded (ORepC 1 1 [120;121;122]) /\ CstrsOk (ORepC 1 1 [120;121;122]) /\
+  std_step (abs (fs10 [97;98;99])) (abs (fs10 [])) (ORepC 1 1 [120;121;122]) = Some ([97;120;121;122;99], [], RNone) /\
+  std_step (abs (fs10 [97;98;99])) (abs (fs10 [])) (OCmppC 1 NPOS [98;99]) = Some ([97;98;99], [], RCmp Eq).
+Proof.
+  split; [split; [vm_compute; discriminate|vm_compute; reflexivity]|].
+  split; [repeat split; vm_compute; try reflexivity; discriminate|].
+  split; [repeat constructor; vm_compute; reflexivity|].
+  split; [repeat constructor; vm_compute; reflexivity|].
+  split; vm_compute; reflexivity.
+Qed.
